@@ -373,7 +373,9 @@ Fixpoint reorder (keys : list arg) (l : list (path * item)) : option (list (path
   end.
 Definition reorder_val (sk : arg) (sub : cval) : cval :=
   match sk, sub with
-  | ASeq keys, VList l => match reorder keys l with Some r => VList r | None => VRaise end
+  | ASeq keys, VList l => match reorder keys l with
+                          | Some r => if Nat.ltb (List.length r) (List.length l) then VRaise else VList r   (* "Some keys were not found" *)
+                          | None => VRaise end
   | _, _ => VRaise
   end.
 
